@@ -488,10 +488,16 @@ class Parser:
 
         return s.encode()[0]
 
+    def _add_literals(self, left: Any, right: Any, start: Any, end: Any) -> Any:
+        """Concatenate two evaluated string literals; str and bytes do not mix."""
+        if isinstance(left, bytes) != isinstance(right, bytes):
+            self.raise_syntax_error_known_range("cannot mix bytes and nonbytes literals", start, end)
+        return left + right
+
     def _concat_strings_in_constant(self, parts: list[TokenInfo]) -> ast.Constant:
         s = ast.literal_eval(parts[0].string)
         for ss in parts[1:]:
-            s += ast.literal_eval(ss.string)
+            s = self._add_literals(s, ast.literal_eval(ss.string), parts[0], ss)
         args = {
             "value": s,
             "lineno": parts[0].start[0],
@@ -536,10 +542,15 @@ class Parser:
         if ss:
             values.append(self._concat_strings_in_constant(ss))
 
+        if seen_joined:
+            for p in values:
+                if isinstance(p, ast.Constant) and isinstance(p.value, bytes):
+                    self.raise_syntax_error_known_location("cannot mix bytes and nonbytes literals", p)
+
         consolidated: list[Any] = []  # ast.Constant | ast.FormattedValue
         for p in values:
             if consolidated and isinstance(consolidated[-1], ast.Constant) and isinstance(p, ast.Constant):
-                consolidated[-1].value += p.value  # type: ignore[unreachable]
+                consolidated[-1].value = self._add_literals(consolidated[-1].value, p.value, consolidated[-1], p)
                 consolidated[-1].end_lineno = p.end_lineno
                 consolidated[-1].end_col_offset = p.end_col_offset
             else:
